@@ -565,9 +565,13 @@ pub fn cmd_sjis(a: &Args) {
 			let mut bytes: Vec<u8> = vec![];
 			let mut pending_lead = false;
 			let mut after_nul = false;
+			let mut standalone_x80 = false;
 			for (k, c) in l.cls.iter().enumerate() {
 				let mut b = class_bytes(c, k + idx + wi);
 				if !after_nul {
+					if !pending_lead && c == "X80" {
+						standalone_x80 = true;
+					}
 					if pending_lead {
 						b = match c.as_str() {
 							"HI" => 0x40 + ((k + idx) % 0x3F) as u8,
@@ -612,7 +616,7 @@ pub fn cmd_sjis(a: &Args) {
 				(Outcome::Panic(p), _) => report("panic", "sjis_decode", p.clone()),
 				(Outcome::Ok(s), "err") => report("mismatch", "sjis_strict", format!("structurally invalid bytes {} decoded to {:?}", crate::util::hex(&cut), s)),
 				// (byte 0x80 decodes to U+0080 today; the property does not say, so its rejection is not an alarm)
-				(Outcome::Err(_), "ok") if cut.contains(&0x80) => {}
+				(Outcome::Err(_), "ok") if standalone_x80 => {}
 				(Outcome::Err(e), "ok") => report("mismatch", "sjis_decode", format!("valid bytes {} rejected: {}", crate::util::hex(&cut), e)),
 				_ => {}
 			}
